@@ -112,7 +112,7 @@ def main():
     sh(["git", "-C", REPO, "worktree", "prune"])
     head = subprocess.run(["git", "-C", REPO, "rev-parse", "--short", "HEAD"], stdout=subprocess.PIPE, text=True).stdout.strip()
     vhead = subprocess.run(["git", "-C", ROOT, "rev-parse", "--short", "HEAD"], stdout=subprocess.PIPE, text=True).stdout.strip()
-    if not a.names:
+    if not a.names or a.out != os.path.join(ROOT, "seeded", "SWEEP.md"):
         with open(a.out, "w") as f:
             f.write("# Sweep of the stored seeded changes\n\n/repo %s, /verif %s, tier %s, seeds %s (tools/seed_sweep.py).\n\n" % (head, vhead, a.tier, a.seeds))
             n_c = sum(1 for r in rows if r[1].startswith("caught"))
